@@ -245,7 +245,12 @@ impl Router {
             Event::NewAlert(tx) => self.handle_new_alert(tx),
             Event::DeviceData => self.handle_device_payload(id),
             Event::Disconnect => self.handle_disconnection(id, None),
-            Event::Ready => self.scheduler.reschedule(id, ScheduleReason::Ready),
+            Event::Ready => {
+                // a late Ready can reach the router after its connection has been removed
+                if self.scheduler.trackers.contains(id) {
+                    self.scheduler.reschedule(id, ScheduleReason::Ready)
+                }
+            }
             Event::Shadow(request) => {
                 retrieve_shadow(&mut self.datalog, &mut self.obufs[id], request)
             }
